@@ -6,6 +6,7 @@ import (
 	"encoding/json"
 	"flag"
 	"fmt"
+	kanzi "github.com/flanglet/kanzi-go/v2"
 	"math/rand"
 	"os"
 	"strings"
@@ -96,7 +97,19 @@ func execWriterRun(run *writerRun, data []byte) ([]tr.Ev, []byte) {
 	}
 	ctx := run.W.Ctx()
 	ctx["verifHook"] = rec.Func()
-	w, err := kio.NewWriterWithCtx(sink, ctx)
+	var w *kio.Writer
+	var err error
+	owned := true
+	if run.W.API == "debug" {
+		// a caller-supplied bit stream (here a Debug stream around a default one): the Writer does not own the sink
+		var obs kanzi.OutputBitStream
+		if obs, err = kz.DebugOut(sink); err == nil {
+			w, err = kio.NewWriterWithCtx2(obs, ctx)
+		}
+		owned = false
+	} else {
+		w, err = kio.NewWriterWithCtx(sink, ctx)
+	}
 	if err != nil {
 		evs = append(evs, tr.Ev{"ev": "Note", "what": "writer construction failed: " + err.Error()})
 		return evs, nil
@@ -194,7 +207,7 @@ func execWriterRun(run *writerRun, data []byte) ([]tr.Ev, []byte) {
 			}
 		}
 		evs = append(evs, tr.Ev{"ev": "Close", "err": kz.Class(e), "panic": panicked, "sinkLen": len(sink.Data), "sinkClosed": sink.Closed,
-			"owned": true, "acc": tr.Dig(data[:accepted]), "dec": dec, "msg": errText(e), "decmsg": decmsg})
+			"owned": owned, "acc": tr.Dig(data[:accepted]), "dec": dec, "msg": errText(e), "decmsg": decmsg})
 		return e
 	}
 	doGetWritten := func() {
@@ -432,6 +445,10 @@ func planWriterRun(mode string, k int, seed int64, thorough bool) (*writerRun, [
 	run.W = kz.Cfg{Transform: tf, Entropy: en, Block: B, Jobs: pick(rnd, []uint{1, 1, 2, 3, 4, 5, 8, 16, 64}), Ck: pick(rnd, []uint{0, 32, 64}),
 		Hint: hint, Headerless: rnd.Intn(10) == 0, SkipBlocks: rnd.Intn(8) == 0}
 	run.RJobs = pick(rnd, []uint{1, 2, 3, 4, 8, 64})
+	if mode == "c01" && size <= 150000 {
+		// the other public entry points: positional constructors on the reading side, caller-supplied (Debug) bit streams on both
+		run.W.API = pick(rnd, []string{"", "", "", "", "", "positional", "debug", "debug"})
+	}
 	if mode == "c07w" {
 		pair := pick(rnd, fastPairs)
 		run.W.Transform, run.W.Entropy = pair[0], pair[1]
